@@ -43,7 +43,9 @@ def handle (ts : List String) : String :=
   let groups := gs.map String.toNat!
   let off := (os.headD "0").toNat!
   let C := DriverRx.consts
-  let stop := match errAt with | some k => k + 1 | none => frames.length
+  -- `X <errAt> E <n>`: the last `n` frames are not owed to the chain (they stay in the buffer when the stream ends)
+  let extra : Nat := match xs with | [_, "E", n] => n.toNat! | _ => 0
+  let stop := match errAt with | some k => k + 1 | none => frames.length - extra
   let (a, vs0) := runChunks C stop frames.length (splitChunks groups (frames.flatMap (· ++ [0]))) (ainit C) net0 []
   -- the erroring frame is consumed but yields no item
   let vs := match errAt with | some k => vs0.take k | none => vs0
@@ -58,7 +60,7 @@ def handle (ts : List String) : String :=
   -- oracle: every held item still reads as it did; and when all replies came in one read they lie
   -- in one buffer at the distances their frames dictate (nothing was moved)
   let offsets : List Int := (frames.foldl (fun (acc : List Int × Int) f => (acc.1 ++ [acc.2], acc.2 + f.length + 1)) ([], 0)).1
-  let nItems := match errAt with | some k => k | none => frames.length
+  let nItems := match errAt with | some k => k | none => frames.length - extra
   let want := (offsets.take nItems).map (fun d => "same@" ++ toString d) ++ (if errAt.isSome then ["err"] else [])
   let items := obs.filter (· != "err")
   let h := items.all (·.startsWith "same@") && items.length == nItems && (obs.contains "err" == errAt.isSome) &&
